@@ -296,6 +296,124 @@ def same_outcome_both_ways(ctx: RunCtx) -> BoundedResult:
     return res
 
 
+def group_programs_both_ways(ctx: RunCtx) -> BoundedResult:
+    """Bounded stand-in for the part of the property the contracts do not reach: nested calls, parallelized groups (tuples, dicts,
+    Arguments, common_args with per-call keys that differ, sizes around and across the batch size), direct tasks with and without
+    parallel_func, retries and failures inside a group.  Every program is run in sync mode and through the real ThreadRunner; compared are
+    the outcome (value, or exception type and arguments; a group's results as a multiset because the distributed group yields them as they
+    finish) and the recorded body executions (how many, and with which arguments)."""
+    import threading
+    from . import verif_tasks as vt
+    from .realapp import real_app
+    thorough = ctx.tier == "thorough"
+    threading.excepthook = lambda args: None      # runner threads re-raise the scripted failures of task bodies: keep stderr readable
+    res = BoundedResult("group_programs_both_ways", "programs {nested single calls, nested group, groups of tuples / dicts / Arguments / dicts with common_args "
+                        "and differing keys, batch sizes 1..5 x group sizes around multiples of them, 101" + ("/250" if thorough else "") + " calls with the default "
+                        "batch size, direct task plain / parallel_func list / parallel_func (common_args, iter), retriable and fatal failures inside a group}: "
+                        "sync mode vs real ThreadRunner on the in-memory stack" + (" and the SQLite stack" if thorough else "") +
+                        "; outcome and recorded body executions compared")
+
+    def programs():
+        P = {}
+
+        def leaf_of(app, **opts):
+            t = app.task(max_retries=2, retry_for=(vt.Retriable,), **opts)(vt.g_leaf)
+            vt.G_LEAF[0] = t
+            return t
+        P["nested-single"] = lambda app, tag: (leaf_of(app), app.task(vt.g_parent_single)(tag, 3).result)[1]
+        P["nested-group"] = lambda app, tag: (leaf_of(app), app.task(vt.g_parent_group)(tag, 3).result)[1]
+        P["group-tuples-3"] = lambda app, tag: sorted(leaf_of(app).parallelize([(tag, i) for i in range(3)]).results)
+        P["group-dicts-3"] = lambda app, tag: sorted(leaf_of(app).parallelize([{"tag": tag, "i": i, "scale": i + 1} for i in range(3)]).results)
+        P["group-arguments-2"] = lambda app, tag: (lambda t: sorted(t.parallelize([t.args(tag, i) for i in range(2)]).results))(leaf_of(app))
+        P["group-common-args-differing-keys"] = lambda app, tag: sorted(leaf_of(app).parallelize(
+            [{"i": 1, "scale": 10}, {"i": 2}, {"i": 3}], common_args={"tag": tag, "base": [1, 2, 3]}).results)
+        P["group-common-args-differing-keys-later-override"] = lambda app, tag: sorted(leaf_of(app).parallelize(
+            [{"i": 1}, {"i": 2, "base": [5]}, {"i": 3}, {"i": 4, "scale": 2}, {"i": 5}], common_args={"tag": tag, "base": [1, 2, 3]}).results)
+        sizes = [(4, 10), (3, 10), (2, 5), (4, 8), (4, 9), (1, 3), (5, 11)]
+        if thorough:
+            sizes = [(b, n) for b in (1, 2, 3, 4, 5) for n in range(1, 13)]
+        for b, n in sizes:
+            P[f"group-batch{b}-n{n}"] = (lambda b, n: lambda app, tag: sorted(leaf_of(app, parallel_batch_size=b).parallelize([(tag, i) for i in range(n)]).results))(b, n)
+        P["group-batch2-n5-common-args"] = lambda app, tag: sorted(leaf_of(app, parallel_batch_size=2).parallelize(
+            [({"i": i, "scale": 10} if i % 2 else {"i": i}) for i in range(5)], common_args={"tag": tag, "base": [1]}).results)
+        P["group-no-batching-n5"] = lambda app, tag: sorted(leaf_of(app, parallel_batch_size=0).parallelize([(tag, i) for i in range(5)]).results)
+        for n in ((101, 250) if thorough else (101,)):
+            P[f"group-default-batch-n{n}"] = (lambda n: lambda app, tag: sorted(leaf_of(app).parallelize([(tag, i) for i in range(n)]).results))(n)
+        P["direct-plain"] = lambda app, tag: app.direct_task(max_retries=2, retry_for=(vt.Retriable,))(vt.g_direct)(tag, 5, 2)
+        P["direct-parallel-tuples"] = lambda app, tag: app.direct_task(parallel_func=vt.g_fan_tuples, aggregate_func=lambda rs: sorted(rs))(vt.g_direct)(tag, n=4)
+        P["direct-parallel-common-args"] = lambda app, tag: app.direct_task(parallel_func=vt.g_fan_common, aggregate_func=lambda rs: sum(rs))(vt.g_direct)(tag, n=7)
+        P["direct-parallel-default-batch-n101"] = lambda app, tag: app.direct_task(parallel_func=vt.g_fan_common, aggregate_func=lambda rs: sum(rs))(vt.g_direct)(tag, n=101)
+        return P
+    scripts = {"group-tuples-3": [{}, {1: "r"}, {1: "rr", 2: "r"}, {1: "rrr"}, {0: "k"}, {2: "rk"}],
+               "group-batch4-n10": [{}, {9: "r"}, {4: "rrr"}], "direct-plain": [{}, {5: "r"}, {5: "rrr"}, {5: "k"}],
+               "direct-parallel-tuples": [{}, {3: "r"}, {0: "k"}], "nested-single": [{}, {4: "r"}, {5: "k"}]}
+    n = 0
+    names = list(programs())
+    for backend in (("mem", "sqlite") if thorough else ("mem",)):
+        for name in names:
+            for script in scripts.get(name, [{}]):
+                n += 1
+                results = {}
+                for mode in ("sync", "dist"):
+                    tag = f"{name}:{mode}:{n}"
+                    vt.G_SCRIPT.clear()
+                    vt.G_SCRIPT.update(script)
+                    kw = {"dev_mode_force_sync_tasks": True} if mode == "sync" else {}
+                    with real_app(backend, **kw) as app:
+                        runner_thread = None
+                        if mode == "dist":
+                            from pynenc.runner.thread_runner import ThreadRunner
+                            app.runner = ThreadRunner(app)
+                            app.conf.runner_loop_sleep_time_sec = 0.01
+                            app.conf.invocation_wait_results_sleep_time_sec = 0.01
+                            runner_thread = threading.Thread(target=app.runner.run, daemon=True)
+                            runner_thread.start()
+                        box = {}
+
+                        def work(app=app, tag=tag, box=box):
+                            try:
+                                box["out"] = ("ok", programs()[name](app, tag))
+                            except Exception as e:      # noqa: BLE001
+                                box["out"] = ("exc", type(e).__name__, e.args)
+                        try:
+                            w = threading.Thread(target=work, daemon=True)
+                            w.start()
+                            w.join(60)
+                            out = box.get("out", ("no outcome within 60 s",))
+                            if mode == "dist" and out[0] == "exc":      # the other members of the group keep running: let them finish
+                                import time as _t
+                                last, stable = -1, 0
+                                while stable < 6:
+                                    _t.sleep(0.05)
+                                    with vt.G_LOCK:
+                                        cur = len(vt.G_CALLS.get(tag, []))
+                                    last, stable = cur, (stable + 1 if cur == last else 0)
+                        finally:
+                            if runner_thread is not None:
+                                app.runner.stop_runner_loop()
+                                runner_thread.join(10)
+                    with vt.G_LOCK:
+                        execs = sorted(vt.G_CALLS.pop(tag, []))
+                    results[mode] = (out, len(execs), execs if len(execs) <= 12 else execs[:3] + ["..."] + execs[-3:], execs)
+                if (results["sync"][0], results["sync"][3]) != (results["dist"][0], results["dist"][3]) and len(res.failures) < 16:
+                    missing = [e for e in results["sync"][3] if e not in results["dist"][3]][:3]
+                    extra = [e for e in results["dist"][3] if e not in results["sync"][3]][:3]
+                    import collections
+                    cs, cd = collections.Counter(results["sync"][3]), collections.Counter(results["dist"][3])
+                    lazy = results["sync"][0] == results["dist"][0] and results["sync"][0][0] == "exc" and not (cs - cd) and (cd - cs) and \
+                        not ({e[0] for e in (cd - cs)} & {e[0] for e in cs})
+                    # same exception both ways, sync mode ran a strict subset of the bodies: the members after the failing one were never executed
+                    kind = "sync-group-skips-the-members-after-a-failing-one" if lazy else name
+                    res.failures.append({"what": f"{backend} program={name} script={script}: sync outcome {str(results['sync'][0])[:160]} with {results['sync'][1]} body executions "
+                                                 f"!= distributed {str(results['dist'][0])[:160]} with {results['dist'][1]}; executions only in sync mode: {missing}, only distributed: {extra}",
+                                         "input": {"program": name, "script": {str(k): v for k, v in script.items()}, "backend": backend}, "finding_key": f"{backend}:{kind}"})
+    res.cases = n
+    res.distinct = n
+    res.samples = [{"program": "group-common-args-differing-keys", "expected": "[8, 9, 70] and executions (1,10),(2,1),(3,1) in both modes"},
+                   {"program": "group-batch4-n10", "expected": "10 results, 10 body executions in both modes"}]
+    return res
+
+
 def build(ctx: RunCtx) -> Prop:
     T, reg, G = setup(ctx)
     body_oracle(reg)
@@ -307,7 +425,7 @@ def build(ctx: RunCtx) -> Prop:
                        "of F per attempt; closed forms of F; task body starts only after the activation's own RUNNING request",
         level="proof", technique="contract-based deductive verification against a recursive spec function (AST->z3 VCs, body as an oracle per execution) + bounded sync/distributed comparison on the real runner",
         registry=reg, verify=[conc, dist, G["set_invocation_retry"], G["set_invocation_result"], G["set_invocation_exception"]],
-        lemmas=[closed_forms], bounded=[same_outcome_both_ways],
+        lemmas=[closed_forms], bounded=[same_outcome_both_ways, group_programs_both_ways],
         assumptions=GLUE_ASSUMPTIONS + ["the task body is an oracle outcome(a) per execution a: returns a payload, raises a retriable or another exception",
                                         "payload identity through storage/serialisation is C05/C15, not part of this proof",
                                         "the same retriable_exceptions tuple is used by both modes (Task.retriable_exceptions, one cached property)"],
